@@ -48,7 +48,7 @@ def tla_val(v):
 
 
 def write_config(wd, c):
-    for f in ("PoolImpl.tla", "PoolImplMC.tla", "Monitor.tla"):
+    for f in ("PoolImpl.tla", "PoolImplMC.tla", "Monitor.tla", "SlotAccounting.tla"):
         shutil.copy(os.path.join(common.SPEC, f), os.path.join(wd, f))
     mod = "MC_" + c["name"]
     tpl = [dict(t, bad=set(t["bad"])) for t in c["tpl"]]
@@ -71,7 +71,7 @@ def write_config(wd, c):
             f.write("VIEW View\n")
         for i in range(1, 16):
             f.write("INVARIANT C%02d_OK\n" % i)
-        f.write("INVARIANT RegistriesDisjoint\nINVARIANT SlotAccounting\nINVARIANT PrintLeaf\nCONSTRAINT DepthBound\nCHECK_DEADLOCK FALSE\n")
+        f.write("INVARIANT RegistriesDisjoint\nINVARIANT SlotAccounting\nINVARIANT RefinesSlotAccounting\nINVARIANT PrintLeaf\nCONSTRAINT DepthBound\nCHECK_DEADLOCK FALSE\n")
     return mod
 
 
